@@ -225,22 +225,28 @@ def purity_records(job, nid):
     recs = []
     rnd = random.Random(job["seed"])
     work = job["work"]
+    bargs = ["-ap"]
+    if job.get("base_cfg"):
+        bargs += ["-c", write_cfg(work, "cfgBase.json", job["base_cfg"])]
     for item in job["items"]:
         text = read(item["path"])
-        base = run(text, ["-ap"], work, deep_ends=True, repeat=True)
+        base = run(text, bargs, work, deep_ends=True, repeat=True)
         if base["status"] != "ok" or base["rejected"] or base["viol"] is None:
             continue
         if base["impure_ends"] and not base["impure"]:
             # some analysis changed a token attribute: find out which rule (digest around every analysis; slow, rare)
-            slow = run(text, ["-ap"], work, deep=True)
-            base["impure"] = slow["impure"] or [["?", base["impure_ends"][0]]]
+            slow = run(text, bargs, work, deep=True)
+            # (a rule that normalises its OWN options while analysing - 'yes' -> True - changes nobody else's verdict: the
+            # digest around each analysis leaves the analysing rule's own configuration out)
+            own_only = all(w.startswith("configuration of rule") for w in base["impure_ends"]) and not slow["impure"]
+            base["impure"] = slow["impure"] or ([] if own_only else [["?", base["impure_ends"][0]]])
         rid = RuleIds()
         T = table_rows(base["table"], rid, base["viol"])
         V = vt(base["viol"], rid)
         V2 = vt(base["viols"][1], rid) if len(base["viols"]) > 1 else V
         perms = []
         for k in range(job.get("perms", 2)):
-            o = run(text, ["-ap"], work, shuffle=job["seed"] * 7 + k)
+            o = run(text, bargs, work, shuffle=job["seed"] * 7 + k)
             if o["status"] == "ok" and o["viol"] is not None:
                 perms.append(vt(o["viol"], rid))
         reporting = sorted(set(v["rule"] for v in base["viol"]))
@@ -257,14 +263,14 @@ def purity_records(job, nid):
             choices.append([r for r in enabled if r != keep])
         for D in choices[: job.get("subsets", 5)]:
             cfgp = write_cfg(work, "cfgD.json", {"rule": dict((r, {"disable": True}) for r in D)})
-            o = run(text, ["-ap", "-c", cfgp], work)
+            o = run(text, bargs + (["-c", cfgp] if "-c" not in bargs else [cfgp]), work)
             if o["status"] != "ok" or o["viol"] is None:
                 continue
             subsets.append({"D": [rid(r) for r in D], "V": vt(o["viol"], rid)})
         nid += 1
         recs.append({"t": "purity", "id": nid, "file": item["name"], "T": T, "V": V, "V2": V2, "perms": perms, "subsets": subsets,
                      "impure": [[rid(r), w] for r, w in base["impure"]], "textSame": base["text"] == text and base["untouched"],
-                     "names": dict((str(v), k) for k, v in rid.d.items() if any(x[0] == v for x in V)), "impure_names": base["impure"][:5]})
+                     "names": dict((str(v), k) for k, v in rid.d.items() if any(x[0] == v for x in V)), "impure_names": base["impure"][:5], "cfgname": job.get("cfgname", "")})
     return recs
 
 
